@@ -2,7 +2,8 @@
    Statements only; each is closed by [exact] of a lemma proved elsewhere. *)
 From Coq Require Import List ZArith String.
 From CV Require Import Transport.Transport Transport.TransportProofs.
-From CV Require Import Lock.LockCheck Lock.LockCheckProofs Lock.LockInst Gen.LockProgs.
+From CV Require Import Lock.LockCheck Lock.LockCheckProofs Lock.LockInst Gen.LockProgs Lock.CloseLive.
+From Coq Require Import Relations.
 Import ListNotations.
 
 (* ---- locks ------------------------------------------------------------------------------ *)
@@ -70,6 +71,18 @@ Theorem C09_api_sequences_hold_nothing : forall l r,
   r = RNorm empty_state \/ r = RAbort.
 Proof. exact api_sequences_lock. Qed.
 Print Assumptions C09_api_sequences_hold_nothing.
+
+(* close_returns (liveness of the shutdown path, hand-written model Lock/CloseLive.v, NOT generated
+   from the source): under the environment assumptions A1-A4 spelled out there (call-outs return
+   after cancellation, RecvMessage returns on cancel, the waited-for channels get closed,
+   Transport.Close returns) and with a closer that is not itself a counted task (C09_lock_sound,
+   VWaitOwnTask), from the state right after shutdown's cancel there is no infinite execution and
+   every execution that cannot continue has Close returned. *)
+Theorem C09_close_returns : forall s, cancelled s = true -> closer_counted s = false -> ph s <> PHolding ->
+  Acc (fun a b => cstep b a /\ cancelled b = true) s /\
+  (forall s', clos_refl_trans _ cstep s s' -> (forall s'', ~ cstep s' s'') -> ph s' = PReturned).
+Proof. exact close_returns. Qed.
+Print Assumptions C09_close_returns.
 
 (* the checker itself, for all programs *)
 Theorem C09_checker_sound : forall P, check_prog P = true ->
